@@ -178,6 +178,10 @@ type vWire struct {
 	stamps      []int         // those readings (ns)
 	writeGate   chan struct{} // if non-nil: every Write first waits for a token (slow / bursty peer)
 	hold        chan struct{} // if non-nil: when the chunks are exhausted Read blocks until Close
+	partialOn   bool          // the partialAt-th Write call accepts only partialN bytes and reports a timeout
+	partialAt   int
+	partialN    int
+	writes      int // Write calls that got as far as the socket
 }
 
 // vNewLiveWire: a wire whose peer stays silent (Read blocks) until it is closed.
@@ -239,9 +243,29 @@ func (w *vWire) Write(p []byte) (int, error) {
 		w.failWriteAt = -2
 		return 0, errors.New("vWire: write failed")
 	}
+	if w.partialOn && w.partialAt == w.writes {
+		// a slow peer: the deadline passes after the first partialN bytes were accepted
+		w.writes++
+		n := w.partialN
+		if n > len(p) {
+			n = len(p)
+		}
+		if n > 0 {
+			w.written = append(w.written, string(p[:n]))
+		}
+		return n, vTimeoutErr{}
+	}
+	w.writes++
 	w.written = append(w.written, string(p))
 	return len(p), nil
 }
+
+// vTimeoutErr: what a net.Conn returns when a deadline passes (a net.Error with Timeout() true).
+type vTimeoutErr struct{}
+
+func (vTimeoutErr) Error() string   { return "vWire: i/o timeout" }
+func (vTimeoutErr) Timeout() bool   { return true }
+func (vTimeoutErr) Temporary() bool { return true }
 
 func (w *vWire) Close() error {
 	w.closed++
